@@ -44,11 +44,15 @@ def addAt (i : Nat) (w : α) : List α → List α
     | 0 => (b + w) :: bs
     | i + 1 => b :: addAt i w bs
 
-/-- weighted accumulation into `n` bins; samples without a bin are dropped -/
+/-- one step of the accumulation: the sample's weight goes to its bin; samples without a bin are dropped -/
+def accStep {β : Type} (idx : β → Option Nat) (wt : β → α) (acc : List α) (p : β) : List α :=
+  match idx p with
+  | some i => addAt i (wt p) acc
+  | none => acc
+
+/-- weighted accumulation into `n` bins -/
 def accumulate {β : Type} (n : Nat) (idx : β → Option Nat) (wt : β → α) (pts : List β) : List α :=
-  pts.foldl (fun acc p => match idx p with
-    | some i => addAt i (wt p) acc
-    | none => acc) (List.replicate n (lit 0))
+  pts.foldl (accStep idx wt) (List.replicate n (lit 0))
 
 /-- total weight of the samples that have a bin -/
 def inRangeWeight {β : Type} (idx : β → Option Nat) (wt : β → α) (pts : List β) : α :=
